@@ -200,8 +200,20 @@ def run_scenario(sc):
             # the caller's own lists: after the calibration they are reused for something else (reordered in place);
             # the calibration that was returned must not depend on them any more
             mc, mv = list(mef_channels), [list(v) for v in mef_values]
-            res = FlowCal.mef.get_transform_fxn(sample, mv, mc, clustering_fxn=clustering,
-                                                clustering_channels=cl, statistic_fxn=statf, full_output=True)
+            # documented options that change no number: the diagnostic figures drawn (one scenario in six), and - when no
+            # population sits at a detector limit, so that there is nothing for it to discard - no selection function
+            opts = {}
+            if sc['seed'] % 6 == 2:
+                opts['plot'] = True
+            if sc['seed'] % 3 == 1 and not any(any(r_) for r_ in rec['sat']):
+                opts['selection_fxn'] = None
+            try:
+                res = FlowCal.mef.get_transform_fxn(sample, mv, mc, clustering_fxn=clustering,
+                                                    clustering_channels=cl, statistic_fxn=statf, full_output=True, **opts)
+            finally:
+                if opts.get('plot'):
+                    import matplotlib.pyplot as plt
+                    plt.close('all')
             mc.reverse()
             mv.reverse()
             for v in mv:
